@@ -44,11 +44,11 @@ def body(c):
                     "exhaustive": True})
     c.add_samples([{k: (v if not isinstance(v, list) or len(v) < 12 else v[:12] + ["..."]) for k, v in t[0].items()} for t in traces[::max(1, len(traces) // 3)]])
     base = copy.deepcopy(next(t for t in traces if t[0]["qt"] == "qint8" and len(t[0]["ns"]) > 8))
-    n1 = copy.deepcopy(base); n1[0]["codes"][3] = [1, (n1[0]["codes"][3][1] + 1) % 127]
+    n1 = copy.deepcopy(base); n1[0]["codes"][3] = [1, (n1[0]["codes"][3][1] + 5) % 127]        # 5 codes away: never a nearest point, even at a tie
     n2 = copy.deepcopy(base); n2[0]["dq"][2] += 1
     n3 = copy.deepcopy(base); n3[0]["out_dtype"] = "float64"
     fb = copy.deepcopy(next(t for t in traces if t[0]["qt"] == "qfloat8_e4m3fn" and len(t[0]["ns"]) > 8))
-    fb[0]["codes2"][1] = [fb[0]["codes2"][1][0], (fb[0]["codes2"][1][1] + 1) % 100]
+    fb[0]["codes2"][1] = [fb[0]["codes2"][1][0], (fb[0]["codes2"][1][1] + 3) % 100]
     c.negative_controls("Trace_QSym", [("wrong-code", n1), ("wrong-dq", n2), ("wrong-dtype", n3), ("not-idempotent", fb)],
                         constants={"KSet": "{}", "Shapes": "{}"})
     # wide domain: the 2^16 value space of float16 / bfloat16 (stratified in the quick tier), boundary-directed
@@ -70,9 +70,9 @@ def body(c):
                         return copy.deepcopy(t), k
         raise MachineryError("no element for negative control")
     w, i = pick("qint8", "float16", 2, 100)
-    w[0]["code"][i] = [w[0]["code"][i][0], w[0]["code"][i][1] + 1]
+    w[0]["code"][i] = [w[0]["code"][i][0], w[0]["code"][i][1] + 4]
     w2, i = pick("qfloat8_e5m2", "float32", 40, 100)
-    w2[0]["code2"][i] = [w2[0]["code2"][i][0], w2[0]["code2"][i][1] - 1]
+    w2[0]["code2"][i] = [w2[0]["code2"][i][0], w2[0]["code2"][i][1] - 3]
     c.negative_controls("Trace_QNum", [("wide-code-off-by-one", w), ("wide-not-idempotent", w2)], constants=devs)
     c.assumptions += ["lattice domain: power-of-two scales, elements on the fine grid (all float operations exact)"]
 
